@@ -69,7 +69,8 @@ def gen_case(rng, max_ops=24):
     """a history whose references are in range: the raw history is run once on the real objects, which fixes
     every reference modulo the number of objects alive at that point"""
     _steps, used = run(gen_history(rng, max_ops))
-    return {'op': 'heap', 'ops': used}
+    # references are positional: dropping a step would re-point every later reference, so no shrinking
+    return {'op': 'heap', 'ops': used, 'noshrink': True}
 
 
 def _valid(x):
